@@ -6,10 +6,16 @@ neutralising context around a restricted construct x renderings with spaces, for
 Numerical, Matrix and Sum graders and ordered lists with sibling references.  Controls (the clean
 answer and clean rewrites, and author answers that use the restricted constructs) must earn the
 configured credit, so the configurations are known not to reject everything.
+
+Review round (families registered after sum_grader): partial verdicts that come from the COMPARER, look-alike function names
+and author answers that break the rules themselves, more kinds of names (removed constants, non-suffixes, names of the
+wrong kind, non-integer numbered indices), more sibling layouts, more SumGrader configurations and partial input layouts,
+restricted graders inside list graders, and graders built / the same text graded earlier in the same process.
 """
 import itertools
 from ..core import Family, Result, viol, HarnessError
 from .. import chooser
+from .. import libstate
 
 from mitxgraders import (FormulaGrader, NumericalGrader, MatrixGrader, SumGrader, ListGrader, DependentSampler, DiscreteSet,
                          RealInterval)
@@ -17,13 +23,22 @@ from mitxgraders.exceptions import InvalidInput, StudentFacingError, MITxError
 from mitxgraders.helpers.calc.exceptions import UndefinedVariable, UndefinedFunction, CalcError
 
 PROPERTY = 'C09'
+libstate.ensure_snapshot()       # taken at import, before any grader has been built in this process
 RULE = ('restriction configs x (correct answer combined with a neutral term using the restricted construct) x neutralising '
         'contexts x space renderings x answer credit {1, 0.5}; every cheat would earn credit if the restriction were ignored '
         '(it is numerically equal to the answer), so every cheat is non-trivial; controls must earn exactly the credit')
 EXPLANATION = 'states = distinct (configuration, formula) cases; transitions = real grader calls'
 ASSUMPTIONS = ['forbidden strings are compared ignoring spaces only (tabs/em-dashes are outside the statement)',
-               'Sum graders: all four fields are entered by the student',
-               'RNG owned by the explorer with default answers (deterministic samples)']
+               'Sum graders: all four fields are entered by the student, or a subset with the restricted construct in a '
+               'student-entered field (restrictions that hit author-fixed fields are outside the statement)',
+               'RNG owned by the explorer with default answers (deterministic samples)',
+               'IntegralGrader is not exercised: scipy is not installed in this environment (every call fails before grading)',
+               'a SumGrader student may NAME the summation variable like an instructor-only sampled variable (the name is then '
+               'bound by the sum; no value of the instructor variable is reachable): not judged',
+               'hermetic families (registered after sum_grader) restore the library-level containers before every case and renew '
+               'the process-wide parser at fixed case numbers; what must have happened earlier is part of the case itself',
+               'ordered list whose FIRST answer references sibling_2: an undefined name typed into the second box must be an '
+               'undefined-variable error too (found a genuine defect, repaired)']
 
 
 def run(g, inp):
@@ -87,16 +102,46 @@ def classify(out, allowed, credit_forbidden=True):
     return 'other-error:' + name, ('wrongclass', repr(e))
 
 
+def pristine_library():
+    """library-level containers (class-level default dictionaries, module tables) back to their content at import time"""
+    libstate.ensure_snapshot()
+    for _name, obj, saved in libstate.LIB_STATE:
+        try:
+            same = (obj == saved)
+        except Exception:
+            same = False
+        if not same:
+            libstate.restore_library_state()
+            return True
+    return False
+
+
+def fresh_parser():
+    """a new process-wide formula parser (empty cache, empty scratch sets)"""
+    from mitxgraders.helpers.calc import expressions as X
+    X.PARSER = X.MathParser()
+
+
 class Restriction(Family):
     """generic: a list of (label, grader factory, cheats, allowed error classes, controls, credit)"""
     timeout = 60.0
+    EPOCH = 512          # hermetic families: the parser is renewed at every case whose number is in [512k, 512k + 16)
 
-    def __init__(self, name, rule, builder):
+    def __init__(self, name, rule, builder, hermetic=False):
         self.name = name
         self.rule = rule
         self.builder = builder
+        # hermetic: every case starts from the pristine library-level containers, and the process-wide parser is renewed when
+        # a worker starts on the family and then at fixed case numbers (about every 32nd case of a worker), so that a verdict
+        # never depends on what cases further back than that left behind (what a case needs to have happened before, it does
+        # itself: `before`, `before_with`) and every violation can be replayed from its recent predecessors.  The older
+        # families keep running in whatever the worker has accumulated.
+        self.hermetic = hermetic
 
     def setup(self, tier):
+        if self.hermetic:
+            pristine_library()
+            fresh_parser()
         self.items = self.builder(tier)
         self.control_for = {}
         for it in self.items:
@@ -115,6 +160,10 @@ class Restriction(Family):
     def check(self, case):
         it = self.items[case]
         where = '%s; input %r' % (it['label'], it['input'])
+        if self.hermetic:
+            pristine_library()
+            if case % self.EPOCH < 16:
+                fresh_parser()
         try:
             for other, pre in it.get('before_with', ()):
                 og = other()                  # graders built (and used) earlier in the process must not matter either
@@ -147,7 +196,12 @@ class Restriction(Family):
             # same process-wide parser) must still earn its credit right afterwards
             ctl = self.control_for.get(it['label'])
             if ctl is not None:
-                out2 = run(it['grader'](), ctl['input'])
+                try:
+                    g_again = it['grader']()
+                except Exception as e:
+                    out2 = ('err', e)
+                else:
+                    out2 = run(g_again, ctl['input'])
                 ok2 = out2[0] == 'ok'
                 if ok2:
                     res2 = out2[1]
@@ -482,11 +536,13 @@ def build_comparer_partial(tier):
     """the verdict is 'partial' because of the COMPARER (not because the matched answer is worth less than 1)"""
     from mitxgraders.comparers import LinearComparer
     items = []
-    ncon = 4 if tier == 'quick' else 9
+    ncon = 3 if tier == 'quick' else 9
     comparers = [('comparer returning "partial"', cmp_partial, 0.5), ('comparer returning {grade_decimal: .25}', cmp_quarter, 0.25)]
     for cls, clsname, matrix in ((FormulaGrader, 'FormulaGrader', False), (MatrixGrader, 'MatrixGrader', True)):
         for cname, cmp, credit in comparers:
-            for scale in ((1, 0.5) if (tier != 'quick' or not matrix) else (1,)):
+            if matrix and tier == 'quick':
+                continue          # quick: MatrixGrader meets LinearComparer and entry_partial_credit below
+            for scale in ((1, 0.5) if (tier != 'quick' or cmp is cmp_partial) else (1,)):
                 A = '2*cos(x)+x'
                 cfgs = [('blacklist=[sin]', dict(blacklist=['sin']), ['sin(x)', 'sin(0)'], 'blacklist'),
                         ('whitelist=[cos,abs]', dict(whitelist=['cos', 'abs']), ['sqrt(4)', 'exp(0)'], 'whitelist')]
@@ -564,7 +620,7 @@ def build_lookalikes(tier):
     items = []
     for credit in (1, 0.5):
         for cls, clsname, matrix in ((FormulaGrader, 'FormulaGrader', False), (MatrixGrader, 'MatrixGrader', True)):
-            if matrix and credit != 1 and tier == 'quick':
+            if matrix and tier == 'quick':
                 continue
             # required cos: cosh / arccos are other functions
             mkg = lambda cls=cls, credit=credit: cls(answers={'expect': 'cos(2*x)', 'grade_decimal': credit}, variables=['x'],
@@ -574,7 +630,7 @@ def build_lookalikes(tier):
             for cheat in ('cosh(2*i*x)', 're(cosh(2*i*x))', '1-2*sin(x)^2+0*arccos(0)', '1-2*sin(x)^2+0*cosh(x)', '1/sec(2*x)+0*arccos(0)',
                           '1-2*sin(x)^2+0*cot(1)', '1-2*sin(x)^2+0*arccosh(2)'):
                 items.append(mk(lab, mkg, cheat, 'cheat', FUNC_ERR, tag='required:look-alike'))
-            # required sin AND cosh given, cos missing ... and the other way round
+            # two required functions, the name of one contained in the name of the other: either one missing
             mkg = lambda cls=cls, credit=credit: cls(answers={'expect': 'cosh(x)+cos(x)', 'grade_decimal': credit}, variables=['x'],
                                                      required_functions=['cosh', 'cos'])
             lab = '%s required_functions=[cosh,cos] credit %r' % (clsname, credit)
@@ -627,8 +683,6 @@ def build_lookalikes(tier):
             lab = '%s author answer sin(2*x) contains the forbidden 2*x, credit %r' % (clsname, credit)
             items.append(mk(lab, mkg, '2*sin(x)*cos(x)', 'control', credit=credit))
             for cheat in ('sin(2*x)', 'sin(2 *x)', 'sin(x+x)', 'sin(( x +x))'):
-                if cheat == 'sin(x+x)':
-                    continue
                 items.append(mk(lab, mkg, cheat, 'cheat', FUNC_ERR, tag='forbidden:author-text'))
             mkg = lambda cls=cls, credit=credit: cls(answers={'expect': '1-2*sin(x)^2', 'grade_decimal': credit}, variables=['x'],
                                                      required_functions=['cos'])
@@ -667,7 +721,8 @@ def build_names_wider(tier):
                 ('metric_suffixes=True',
                  lambda cls=cls, credit=credit: cls(answers={'expect': '2*cos(x)+x', 'grade_decimal': credit}, variables=['x'],
                                                     metric_suffixes=True),
-                 ['2q', '2x', '2K', '2pi', '2da', '2E', '2kk', '2e', '3cos', 'k', '2*k', 'k2'], 'not-a-suffix', ('0*2k', '0*3%', '0*2 M')),
+                 # (2E), (2e) in parentheses: followed by +1 or -2 they would be numbers in scientific notation
+                 ['2q', '2x', '2K', '2pi', '2da', '(2E)', '2kk', '(2e)', '3cos', 'k', '2*k', 'k2'], 'not-a-suffix', ('0*2k', '0*3%', '0*2 M')),
                 # function names used as variables, constants and variables used as functions
                 ('plain grader + user function h (name kinds mixed up)',
                  lambda cls=cls, credit=credit: cls(answers={'expect': '2*cos(x)+x', 'grade_decimal': credit}, variables=['x'],
@@ -702,6 +757,8 @@ def build_names_wider(tier):
                  'instructor-var', ()),
             ]
             for label, mkg, Rs, tag, extra_ok in setups:
+                if matrix and tier == 'quick' and tag in ('wrong-kind', 'numbered-var'):
+                    continue
                 lab = '%s %s credit %r' % (clsname, label, credit)
                 items.append(mk(lab, mkg, A, 'control', credit=credit))
                 for ok in extra_ok:
@@ -713,7 +770,7 @@ def build_names_wider(tier):
                     seen.add(R)
                     cons = contexts(A, R, matrix=matrix)
                     if tier == 'quick':
-                        cons = cons[:2] + cons[-1:]
+                        cons = (cons[:2] + cons[-1:]) if not matrix else cons[-1:]
                     for cheat in cons + [R]:
                         items.append(mk(lab, mkg, cheat, 'cheat', UNDEF_ERR, tag=tag))
         # MatrixGrader: the identity I as an instructor-only constant
@@ -740,17 +797,25 @@ def build_siblings_wider(tier):
     for credit in (1, 0.5):
         # forward reference: the FIRST answer is written in terms of the second input
         for sub, subname in ((lambda: FormulaGrader(variables=['x']), 'FormulaGrader'), (lambda: MatrixGrader(variables=['x']), 'MatrixGrader')):
+            forward = (tier != 'quick' or subname == 'FormulaGrader')
             mkg = lambda credit=credit, sub=sub: ListGrader(answers=[{'expect': 'sibling_2^2', 'grade_decimal': credit}, 'x'],
                                                             subgraders=sub(), ordered=True)
             lab = 'ordered ListGrader (%s), FIRST answer = sibling_2^2, credit %r' % (subname, credit)
-            items.append(mk(lab, mkg, ['x^2', 'x'], 'control', credit=credit))
+            if forward:
+                items.append(mk(lab, mkg, ['x^2', 'x'], 'control', credit=credit))
             for cheat in ('sibling_2^2', 'x^2+0*sibling_2', 'x^2+sibling_2-sibling_2', 'x^2*sibling_2^0', 'x^2+0*sibling_1', 'x*sibling_2',
                           'x^2+0*cos(sibling_2)', 'x^2+0*sibling_3'):
+                if not forward:
+                    break
                 items.append(mk(lab, mkg, [cheat, 'x'], 'cheat', UNDEF_ERR, tag='sibling:forward'))
-            # PENDING-FINDING: an undefined name (sibling_1, q) in the SECOND box, which the first answer references, surfaces
-            # as ConfigError ("DependentSamplers depend on undefined quantities") instead of an undefined-variable error.
-            # for cheat in ('x+0*sibling_1', 'x+0*q', 'x+0*sibling_2'):
-            #     items.append(mk(lab, mkg, ['x^2', cheat], 'cheat', UNDEF_ERR, tag='sibling:forward:referenced-box'))
+            # an undefined name (sibling_1, q, sibling_2 itself) typed into the SECOND box, which the first answer references:
+            # the box is sampled as sibling_2 for the first answer before it is graded itself, and the failure surfaces as
+            # ConfigError ("DependentSamplers depend on undefined quantities: sibling_1") instead of an undefined-variable error
+            for cheat in ('x+0*sibling_1', 'x+0*q', 'x+0*sibling_2'):
+                # (found a genuine defect, repaired: ConfigError blamed the author for the student's undefined name)
+                if not forward:
+                    break
+                items.append(mk(lab, mkg, ['x^2', cheat], 'cheat', UNDEF_ERR, tag='sibling:forward:referenced-box'))
             # a chain of three
             mkg = lambda credit=credit, sub=sub: ListGrader(
                 answers=['x', 'sibling_1^2', {'expect': 'sibling_2*sibling_1', 'grade_decimal': credit}], subgraders=sub(), ordered=True)
@@ -833,9 +898,9 @@ def build_sum_wider(tier):
             items.append(mk(lab, mkg, fields(summand=S + '+' + ok), 'control', credit=1))
         for cheat in contexts(S, R)[:(3 if tier == 'quick' else 9)]:
             items.append(mk(lab, mkg, fields(summand=cheat), 'cheat', allowed, tag=tag + ':summand'))
-        for cheat in ('1+0*%s' % R, '1+%s-%s' % (R, R)):
+        for cheat in ('1+0*%s' % R, '1+%s-%s' % (R, R))[:(1 if tier == 'quick' else 2)]:
             items.append(mk(lab, mkg, fields(lower=cheat), 'cheat', allowed, tag=tag + ':lower'))
-        for cheat in ('4+0*%s' % R, '4-%s+%s' % (R, R)):
+        for cheat in ('4-%s+%s' % (R, R), '4+0*%s' % R)[:(1 if tier == 'quick' else 2)]:
             items.append(mk(lab, mkg, fields(upper=cheat), 'cheat', allowed, tag=tag + ':upper'))
     # whitelist=[None]: no function at all (the author's summand has none either)
     mkg = lambda: SumGrader(answers=dict(base, summand='n^2+n'), whitelist=[None])
@@ -966,7 +1031,8 @@ def build_construction_order(tier):
                 continue
             lab = '%s built and used first, then a plain %s' % (ename, lname)
             items.append(mk(lab, lmk, shape(term), 'cheat', UNDEF_ERR, tag='leaked-from-earlier-grader', before_with=((emk, einp),)))
-            items.append(mk(lab, lmk, shape(''), 'control', credit=1, before_with=((emk, None),)))
+            if tier != 'quick':
+                items.append(mk(lab, lmk, shape(''), 'control', credit=1, before_with=((emk, None),)))
     narrowing = [
         ('NumericalGrader(user_constants={pi: None, e: None})', lambda: NumericalGrader(answers='3', user_constants={'pi': None, 'e': None}),
          '3', '+0*pi*e'),
@@ -1007,7 +1073,7 @@ def build_construction_order(tier):
     for label, make, strict_kw, loose_kw, cheats, clean, allowed, tag in same_text:
         strict = lambda make=make, kw=strict_kw: make(**kw)
         loose = lambda make=make, kw=loose_kw: make(**kw)
-        for cheat in cheats:
+        for cheat in (cheats[:1] if tier == 'quick' else cheats):
             lab = '%s: the same text was first graded (and credited) by the grader without the restriction' % label
             items.append(mk(lab, strict, cheat, 'cheat', allowed, tag=tag + ':same-text-permissive-first', before_with=((loose, cheat),)))
             items.append(mk(lab, strict, clean, 'control', credit=1, before_with=((loose, cheat),)))
@@ -1171,6 +1237,19 @@ class TokenFormulas(Family):
         return Result(outcome, nontriv, None, calls)
 
 
+class joined(object):
+    """several builders as one family (fewer worker slices, hence fewer renewals of the process-wide parser)"""
+
+    def __init__(self, *builders):
+        self.builders = builders
+
+    def __call__(self, tier):
+        out = []
+        for b in self.builders:
+            out.extend(b(tier))
+        return out
+
+
 def families(tier):
     return [
         Restriction('function_restrictions',
@@ -1186,32 +1265,29 @@ def families(tier):
         TokenFormulas(),
         Restriction('sum_grader', 'SumGrader with all four fields entered by the student; restricted construct in summand, lower or upper',
                     build_sum),
-        Restriction('comparer_partial_credit',
-                    'the verdict is partial because of the COMPARER (author comparers returning "partial" / a quarter, LinearComparer '
-                    'multiples, MatrixGrader entry_partial_credit with one wrong entry) x blacklist / whitelist / forbidden / required x '
-                    'neutralising contexts, answer credit {1, .5}, on Formula, Matrix, Numerical', build_comparer_partial),
-        Restriction('look_alike_names_and_author_text',
-                    'functions whose names contain the required / blacklisted / whitelisted name (cosh, arccos, sinh, arcsin), required '
-                    'user functions, whitelist=[None] next to a user function, forbidden strings equal to the whole input / ending it / '
-                    'listed last, and author answers that themselves contain the forbidden string or lack the required function',
-                    build_lookalikes),
-        Restriction('names_wider',
-                    'single removed default constants, non-suffixes under metric_suffixes=True, function names used as variables and '
-                    'constants / variables called as functions, non-integer numbered-variable indices and two numbered heads, primed '
-                    'instructor variable, debug=True / samples=1 / failable_evals, identity I as instructor constant', build_names_wider),
-        Restriction('siblings_wider',
-                    'ordered lists: forward reference (first answer in terms of sibling_2), chain of three, Matrix subgrader, sibling + '
-                    'instructor variable, one grader per box, grouped nested lists', build_siblings_wider),
-        Restriction('sum_grader_wider',
-                    'SumGrader: instructor names with falsy first value, removed constant, numbered variables, suffixes, whitelist=[None], '
-                    'user function + whitelist; layouts where the student enters only some fields', build_sum_wider),
-        Restriction('list_wrappers',
-                    'a restricted FormulaGrader inside SingleListGrader / ListGrader (ordered, unordered, other delimiter, nested): a cheat in '
-                    'one entry, next to a right or a wrong other entry, in either position', build_list_wrappers),
-        Restriction('construction_order',
-                    'a grader that allows more (allow_inf, user constants / functions, metric suffixes, identity, matrix functions, extra '
-                    'variables, numbered variables, infty) or less (removed constants, instructor_vars, blacklist, whitelist, forbidden, '
-                    'required) is built and used first in the same process, then a plain Formula / Matrix / Numerical / Sum grader; and '
-                    'the same text graded first by the grader without the restriction (and the other way round)',
-                    build_construction_order),
+        Restriction('partial_credit_and_look_alikes',
+                    '(a) the verdict is partial because of the COMPARER (author comparers returning "partial" / a quarter, '
+                    'LinearComparer multiples, MatrixGrader entry_partial_credit with one wrong entry) x blacklist / whitelist / '
+                    'forbidden / required x neutralising contexts, on Formula, Matrix, Numerical; (b) functions whose names contain '
+                    'the required / blacklisted / whitelisted name (cosh, arccos, sinh, arcsin), required user functions, '
+                    'whitelist=[None] next to a user function, forbidden strings equal to the whole input / ending it / listed last, '
+                    'author answers that themselves contain the forbidden string or lack the required function',
+                    joined(build_comparer_partial, build_lookalikes), hermetic=True),
+        Restriction('names_siblings_sums_wider',
+                    '(a) single removed default constants, non-suffixes under metric_suffixes=True, function names used as variables '
+                    'and constants / variables called as functions, non-integer numbered-variable indices and two numbered heads, '
+                    'primed instructor variable, debug=True / samples=1 / failable_evals, identity I as instructor constant; '
+                    '(b) ordered lists: forward reference (first answer in terms of sibling_2), chain of three, Matrix subgrader, '
+                    'sibling + instructor variable, one grader per box, grouped nested lists; (c) SumGrader: instructor names with '
+                    'falsy first value, removed constant, numbered variables, suffixes, whitelist=[None], user function + whitelist, '
+                    'layouts where the student enters only some fields',
+                    joined(build_names_wider, build_siblings_wider, build_sum_wider), hermetic=True),
+        Restriction('lists_and_construction_order',
+                    '(a) a restricted FormulaGrader inside SingleListGrader / ListGrader (ordered, unordered, other delimiter, '
+                    'nested): a cheat in one entry, next to a right or a wrong other entry, in either position; (b) a grader that '
+                    'allows more (allow_inf, user constants / functions, metric suffixes, identity, matrix functions, extra variables, '
+                    'numbered variables, infty) or less (removed constants, instructor_vars, blacklist, whitelist, forbidden, required) '
+                    'is built and used first in the same process, then a plain Formula / Matrix / Numerical / Sum grader; and the same '
+                    'text graded first by the grader without the restriction (and the other way round)',
+                    joined(build_list_wrappers, build_construction_order), hermetic=True),
     ]
